@@ -1,6 +1,8 @@
 """C01 - parse then print reproduces the input character for character (E-DOC)."""
 from __future__ import annotations
 
+import re
+
 from autobean_refactor import models as M
 from autobean_refactor.models.internal import repeated as R
 
@@ -96,7 +98,12 @@ def run_case(case: dict) -> core.CaseResult:
     res.counters['harvested'] = 0
     res._harvest = harvest  # type: ignore[attr-defined]
     # fragments: every harvested sub-model's own text parsed as its own type, both modes
+    frags = []
     for rule, slice_ in sorted(harvest):
+        frags.append((rule, slice_))
+        if M.TREE_MODELS[rule].INLINE:
+            frags.extend((rule, v) for v in layout_variants(slice_))
+    for rule, slice_ in frags:
         key = (rule, slice_)
         if key in _SEEN_FRAGMENTS:
             continue
@@ -112,6 +119,21 @@ def run_case(case: dict) -> core.CaseResult:
 
 
 _SEEN_FRAGMENTS: set = set()
+_GAP = re.compile(r' +')
+
+
+def layout_variants(text: str) -> list[str]:
+    """an inline fragment laid out over several (indented) lines: every single blank run replaced by a line break,
+    a line break plus indentation, a tab, or an inline comment plus line break; the parser decides which are accepted"""
+    out = []
+    gaps = list(_GAP.finditer(text))
+    for m in gaps[:4]:
+        for rep in ('\n', '\n  ', '\t', ' ; c\n  ', '\r\n\t'):
+            out.append(text[:m.start()] + rep + text[m.end():])
+    if len(gaps) >= 2:
+        out.append(_GAP.sub('\n  ', text))
+    return out
+
 
 # direct-parse layouts per target: text around a model that a fragment parse must tolerate or reject,
 # never mangle
@@ -136,10 +158,10 @@ DIRECT = {
 def main(run: core.Run) -> None:
     tier = run.tier
     if tier == 'quick':
-        variants = (('lf', True), ('lf', False), ('crlf', True), ('mixed', False))
+        variants = (('lf', True), ('lf', False), ('crlf', True), ('mixed', False), ('crcrlf', True))
         items = [{'text': t} for t in docs.texts(docs.L_FULL, 3, variants=variants)]
     else:
-        variants = (('lf', True), ('lf', False), ('crlf', True), ('crlf', False), ('mixed', True), ('crcrlf', False))
+        variants = (('lf', True), ('lf', False), ('crlf', True), ('crlf', False), ('mixed', True), ('crcrlf', False), ('crcrlf', True))
         items = [{'text': t} for t in docs.texts(docs.L_FULL, 3, variants=variants)]
         items += [{'text': t} for t in docs.texts(docs.L_FULL, 4, nmin=4, variants=(('lf', True), ('mixed', False)))]
         items += [{'text': t} for t in docs.texts(docs.L_EDIT, 5, nmin=5, variants=(('lf', True),))]
